@@ -90,9 +90,40 @@ class IGen(Gen):
         return a
 
 
+def coupled_invariant(rng, P):
+    """a state invariant that couples two fluents written by two different actions (the deliberate
+    overlap that footprints of actions do not show): two fresh fluents, two fresh parameterless
+    actions, one invariant; three shapes"""
+    from ..gen import num
+    from ..upj import NV, BV, NONE
+
+    shape = rng.choice(["le", "le", "implies", "sum"])
+    fx, fy = E("fluent", [], name="ix"), E("fluent", [], name="iy")
+    it = {"k": "int", "lo": NONE, "hi": NONE}
+
+    def act(name, target, kind, v, pre=()):
+        return {"name": name, "kind": "inst", "params": [], "pre": list(pre), "conds": [], "dur": NONE, "sim": False,
+                "effects": [{"kind": kind, "f": {"name": target, "args": []}, "v": v, "c": TRUE_E, "forall": []}]}
+
+    if shape == "implies":
+        P["fluents"] += [{"name": "ix", "type": {"k": "bool"}, "sig": [], "default": BV(False)},
+                         {"name": "iy", "type": {"k": "bool"}, "sig": [], "default": BV(False)}]
+        P["actions"] += [act("ia", "iy", "assign", E("const", v=BV(True))), act("ib", "ix", "assign", E("const", v=BV(True)))]
+        P["invariants"].append(E("implies", [fx, fy]))
+    else:
+        P["fluents"] += [{"name": "ix", "type": it, "sig": [], "default": NV(0)},
+                         {"name": "iy", "type": it, "sig": [], "default": NV(rng.choice([0, 0, 1]))}]
+        k = rng.choice([1, 2])
+        P["actions"] += [act("ia", "iy", "inc", num(k)), act("ib", "ix", "inc", num(rng.choice([1, k])))]
+        if shape == "le":
+            P["invariants"].append(E("le", [fx, fy]))
+        else:
+            P["invariants"].append(E("le", [E("minus", [fx, fy]), num(0)]))
+
+
 def gen_corpus(rng, n):
-    """the corpus: mostly invariant-free problems; every 6th has a state invariant, every 7th
-    undefined initial values"""
+    """the corpus: mostly invariant-free problems; every 6th has state invariants (the grammar's own
+    and/or one coupling two actions), every 7th undefined initial values"""
     out = []
     for i in range(n):
         opts = {}
@@ -100,13 +131,16 @@ def gen_corpus(rng, n):
             opts["invariants"] = True
         if i % 7 == 6:
             opts["undefined"] = True
-        g = IGen(rng, p_overlap=rng.choice([0.15, 0.3, 0.5]), max_actions=rng.choice([4, 5]), **opts)
+        # every 9th problem: fluents applied to fluents are frequent (the documented rejection)
+        g = IGen(rng, p_overlap=rng.choice([0.15, 0.3, 0.5]), p_nested=0.6 if i % 9 == 8 else 0.03,
+                 max_actions=rng.choice([4, 5]), **opts)
         for _ in range(30):
             P = g.problem()
             if len(ground_actions(P)) >= 5 and all(a["effects"] for a in P["actions"]):
                 break
-        if opts.get("invariants") and not P["invariants"]:
-            P["invariants"].append(g.bool_expr(1, {}, {}, noconst=True))
+        if opts.get("invariants"):
+            if not P["invariants"] or rng.random() < 0.7:
+                coupled_invariant(rng, P)
         out.append(P)
     return out
 
@@ -147,7 +181,10 @@ def find_plans(ctx, corpus, L, M):
     for i, P in enumerate(corpus):
         gas = ground_actions(P)
         if len(gas) > M:
-            gas = [gas[j] for j in sorted(rng.sample(range(len(gas)), M))]
+            # the two actions of a coupled invariant stay in the menu
+            keep = [j for j, g in enumerate(gas) if g["a"] in ("ia", "ib")]
+            rest = [j for j in range(len(gas)) if j not in keep]
+            gas = [gas[j] for j in sorted(keep + rng.sample(rest, M - len(keep)))]
         probs.append({"pid": i + 1, "P": P, "keys": upj.keys_of(P), "menu": gas, "L": L})
     d = ctx.sub("plans")
     path = os.path.join(d, "probs.ndjson")
@@ -421,7 +458,7 @@ def run(ctx):
             ctx.violation("T1|orders|" + res.violated, "the order utilities of Deorder.tla disagree (%s)" % res.violated,
                           {"n": n, "trace": [s["vars"] for s in res.trace]})
     # ---- corpus, plans, real code -----------------------------------------------------------
-    n, M, per = (70, 6, 8) if q else (700, 7, 14)
+    n, M, per = (64, 5, 7) if q else (700, 7, 14)
     probs, found, recs, skipped, dropped = pipeline(ctx, n, M, per)
     res = judge(ctx, "deorder", probs, recs, ["impl", "design"])
     info = digest(ctx, probs, recs, res)
